@@ -249,6 +249,22 @@ def dispatchC04 : Dispatch := fun op args =>
     match hexToNat? a, D04.bitOfTok? sa, hexToNat? b, D04.bitOfTok? sb, D04.bitOfTok? c with
     | some a, some sa, some b, some sb, some c => some (D04.checkedCt 1 a sa b sb c)
     | _, _, _, _, _ => badArgs
+  | "c04.u.checked_forms", [n, a, sa, b, sb] =>
+    match n.toNat?, hexToNat? a, D04.bitOfTok? sa, hexToNat? b, D04.bitOfTok? sb with
+    | some n, some a, some sa, some b, some sb =>
+      -- `Checked` addition / subtraction: `None` if either operand is `None` (sticky) or the result does not fit
+      let both := sa == 1 && sb == 1
+      let x := toLimbs n a
+      let y := toLimbs n b
+      let ra := checkedAdd x y
+      let rs := checkedSub x y
+      let l1a := if both && ra.2 = WMAX then limbsHex ra.1 else "none"
+      let l1s := if both && rs.2 = WMAX then limbsHex rs.1 else "none"
+      let m := B ^ n
+      let l0a := if both && a % m + b % m < m then natToHex (a % m + b % m) else "none"
+      let l0s := if both && b % m ≤ a % m then natToHex (a % m - b % m) else "none"
+      some (s!"{l1a} {l1s} ;; {l0a} {l0s}")
+    | _, _, _, _, _ => badArgs
   | "c04.u.checked_ct", [n, a, sa, b, sb, c] =>
     match n.toNat?, hexToNat? a, D04.bitOfTok? sa, hexToNat? b, D04.bitOfTok? sb, D04.bitOfTok? c with
     | some n, some a, some sa, some b, some sb, some c => some (D04.checkedCt n a sa b sb c)
